@@ -10,7 +10,7 @@ import os, re, random, shutil, hashlib
 from lib import core, pptok
 
 LEVEL = 'exploration'
-MIN_COUNTS = {'cases_compared': (900, 20000), 'determinism_runs': (100, 2000), 'memcheck_runs': (2, 30)}
+MIN_COUNTS = {'cases_compared': (900, 35000), 'determinism_runs': (100, 2000), 'memcheck_runs': (2, 30)}
 
 # the stages run at different instants: __DATE__/__TIME__ are pinned by a preloaded time() so that they cannot differ
 FIXED_CLOCK = {'LD_PRELOAD': os.path.join(core.VERIF, 'build', 'faketime.so'), 'VERIF_TIME_FIXED': '1790000000'}
@@ -100,7 +100,7 @@ def run(ctx):
     os.makedirs(gen)
     from props import C03, C09, C10, C13
     inc_rt = ['-I' + os.path.join(core.VERIF, 'rt')]
-    ng = ctx.scale(80, 1500)
+    ng = ctx.scale(80, 4000)
     for k in range(ng):
         fs = [C03.control_program(rng, k * 4 + j)[0] for j in range(4)]
         src = C03.PRELUDE + '\n'.join(fs) + '\nint main(void) { %s return 0; }\n' % ' '.join('prog%d();' % (k * 4 + j) for j in range(4))
@@ -116,7 +116,7 @@ def run(ctx):
         p = os.path.join(gen, 'cond%d.c' % k)
         open(p, 'w').write(C10.cond_case(rng)[0])
         corpus.append((p, [], 'gen-cond'))
-    nm = ctx.scale(400, 6000)
+    nm = ctx.scale(400, 20000)
     tsrc = [(f, open(os.path.join(snap, 'test', f), errors='surrogateescape').read()) for f in tests]
     for k in range(nm):
         f, text = rng.choice(tsrc)
